@@ -1,0 +1,8 @@
+//go:build verif
+
+package ssh
+
+import "github.com/go-git/go-git/v6/plumbing/transport"
+
+// VerifBuildCommand exposes buildCommand to the verification harness.
+func VerifBuildCommand(req *transport.Request) string { return buildCommand(req) }
